@@ -97,7 +97,8 @@ Section ReportRun.
       - apply hoareT_call. intros [[[a1 a2] a3] a4] _. eexists. split; [reflexivity|]. repeat split.
       - intros [[[a1 a2] a3] a4] tr (e & -> & E1 & E2 & E3 & E4). apply hoareT_ret. rewrite app_nil_r, !cntP_one, E1, E2, E3, E4. repeat split. }
     intros [[f1 g1] G1] tr6 (F6 & G6 & Ft6 & Gt6).
-    destruct (match X with [] => _ | _ => _ end) as [[X1 G2'] m1].
+    destruct (match u_upd U with Some _ => _ | None => _ end) as [X' G''].
+    destruct (match X' with [] => _ | _ => _ end) as [[X1 G2'] m1].
     set (s0 := mklst x f1 g1 X1 G2' m1 (nit0 c) MStart false 2 t3).
     assert (Es0 : s0 = mklst x f1 g1 X1 G2' m1 (match checkpoint c with None => 0 | Some ck => r_nit ck end) MStart false 2 t3) by reflexivity.
     rewrite <- Es0. clear Es0.
